@@ -16,6 +16,7 @@ import (
 	"sort"
 	"strings"
 	"sync"
+	"time"
 
 	"github.com/nspcc-dev/neo-go/pkg/compiler"
 	"github.com/nspcc-dev/neo-go/pkg/smartcontract/callflag"
@@ -133,7 +134,7 @@ func runVM(script []byte, off, initOff int, e *Entry, args []int64) (res string,
 	return "ok " + canonItem(v.Estack().Pop().Item(), e.Ret), ""
 }
 
-func compileAndRun(p *Prog) (cr *compRes) {
+func compileAndRun(p *Prog, gores map[string]goRes) (cr *compRes) {
 	cr = &compRes{vmres: map[string]string{}, vmerr: map[string]string{}, mnames: map[string]struct{}{}}
 	defer func() {
 		if r := recover(); r != nil {
@@ -170,8 +171,11 @@ func compileAndRun(p *Prog) (cr *compRes) {
 			continue
 		}
 		for ti, t := range e.Tuples {
-			r, msg := runVM(nf.Script, mm.Offset, initOff, e, t)
 			key := fmt.Sprintf("%d %d", fi, ti)
+			if g, have := gores[fmt.Sprintf("%d %s", p.K, key)]; have && (g.long || g.ovf) && p.Core == nil {
+				continue // outside the side condition (or over the step budget): not compared
+			}
+			r, msg := runVM(nf.Script, mm.Offset, initOff, e, t)
 			cr.vmres[key] = r
 			if msg != "" {
 				cr.vmerr[key] = msg
@@ -340,6 +344,15 @@ func main() {
 		}
 	}
 
+	t0 := time.Now()
+	// standard toolchain first, one batch: it tells which tuples are inside the property's side condition
+	gores, dropped, err := runBatch(filepath.Join(f.Out, "gobatch"), progs)
+	if err != nil {
+		fmt.Fprintln(os.Stderr, "go batch failed:", err)
+		os.Exit(3)
+	}
+	fmt.Fprintf(os.Stderr, "go batch: %v\n", time.Since(t0))
+	t0 = time.Now()
 	// real compiler + real VM (4 workers)
 	res := make([]*compRes, len(progs))
 	var wg sync.WaitGroup
@@ -350,23 +363,12 @@ func main() {
 		go func(i int) {
 			defer wg.Done()
 			defer func() { <-sem }()
-			res[i] = compileAndRun(progs[i])
+			res[i] = compileAndRun(progs[i], gores)
 		}(i)
 	}
 	wg.Wait()
 
-	// standard toolchain, one batch
-	var ok []*Prog
-	for i, p := range progs {
-		if res[i].err == "" {
-			ok = append(ok, p)
-		}
-	}
-	gores, dropped, err := runBatch(filepath.Join(f.Out, "gobatch"), ok)
-	if err != nil {
-		fmt.Fprintln(os.Stderr, "go batch failed:", err)
-		os.Exit(3)
-	}
+	fmt.Fprintf(os.Stderr, "compile+vm: %v\n", time.Since(t0))
 
 	rej, _ := os.Create(filepath.Join(f.Out, "rejects.txt"))
 	defer rej.Close()
@@ -445,6 +447,10 @@ func main() {
 				case g.plain == "panic":
 					o.Count("tuple:MISMATCH")
 					o.Fail(key("go-panics-vm-returns"), k, "%s%v: go panics, VM %s", e.Name, t, v)
+				case strings.HasPrefix(v, "stack:") && g.rec:
+					// a panic was recovered while operands were on the evaluation stack: they stay there
+					o.Count("tuple:MISMATCH")
+					o.Fail(key("recover-stale-stack"), k, "%s%v: go recovers a panic and returns %s, VM halts with %s items on the stack", e.Name, t, g.plain, v[6:])
 				case v == "fault" && g.rtrec:
 					// Go recovered a run-time error; NeoVM FAULTs are not catchable
 					o.Count("tuple:MISMATCH")
